@@ -144,6 +144,35 @@ Fixpoint ans_loop (fuel : nat) (c : cfg) (ms : list rmodel) (l : list Z) (a : an
         let '(ss, r') := read_list r in
         let '(a', e) := try_enc c (get_model ms m) ss (Z.to_nat (hdz r')) a in
         e :: ans_loop fuel' c ms (tl r') a' tw
+    | 18 :: m :: r =>
+        let '(ss, r') := read_list r in
+        let '(a', e) := ans_try_encode c (rev (try_items (get_model ms m) ss 0 (Z.to_nat (hdz r')))) a in
+        (match e with TryOk => 0 | TryImpossible _ => ERR_IMPOSSIBLE | TryInvalidModel _ => ERR_INVALID_MODEL end)
+          :: ans_loop fuel' c ms (tl r') a' tw
+    | 19 :: m :: r =>
+        let '(ss, r') := read_list r in
+        let '(a', e) := enc_iid_rev c (get_model ms m) ss a in
+        e :: ans_loop fuel' c ms r' a' tw
+    | 20 :: m :: r =>
+        let '(ss, r') := read_list r in
+        let '(a', e) := enc_iid c (get_model ms m) ss a in
+        e :: ans_loop fuel' c ms r' a' tw
+    | 21 :: m :: k :: r =>
+        let '(a', ss) := dec_iid c (get_model ms m) (Z.to_nat k) a in
+        k :: ss ++ ans_loop fuel' c ms r a' tw
+    | 22 :: m :: k :: f :: r =>
+        let md := get_model ms m in
+        let n := Z.to_nat k in
+        let fa := Z.to_nat f in
+        (* items before and after the failing index are decoded; the failing one yields an error
+           item and leaves the coder alone *)
+        if Nat.ltb fa n then
+          let '(a1, s1) := dec_iid c md fa a in
+          let '(a2, s2) := dec_iid c md (n - fa - 1) a1 in
+          k :: s1 ++ [ERR_INVALID_MODEL * 1000] ++ s2 ++ ans_loop fuel' c ms r a2 tw
+        else
+          let '(a1, s1) := dec_iid c md n a in
+          k :: s1 ++ ans_loop fuel' c ms r a1 tw
     | 12 :: r => out_raw a ++ ans_loop fuel' c ms r a tw
     | 13 :: m :: k :: r =>
         let '(a', ss) := dec_iid c (get_model ms m) (Z.to_nat k) a in
